@@ -188,6 +188,10 @@ def d_graph(family, variant, scale=1):
         vs = vs[:3]
     elif variant == 12:
         vs = vs[:4]          # 4 edges + 4 vertices: the same TOTAL number of parts as variant 1 (3 edges + 5 vertices), different counts
+    elif variant == 13:
+        vs[4] = d_vertex(5, 'R2', 2)      # one far vertex (coordinates x 4096) among ordinary ones: each vertex is compared against its OWN size
+    elif variant == 14:
+        vs[0] = d_vertex(1, K, 2)
     return {'t': 'graph', 'edges': es, 'vertices': vs}
 
 
@@ -302,8 +306,21 @@ def to_py(d):
     return Graph([to_py(e) for e in d['edges']], [to_py(v) for v in d['vertices']])
 
 
-def impl_equals(da, db, tol):
-    a, b = to_py(da), to_py(db)
+def snapshot(o):
+    """every number, id, flag and type an equals() could look at, as plain hashable data (arrays byte for byte)"""
+    if isinstance(o, np.ndarray):
+        return (type(o).__name__, str(o.dtype), o.shape, np.asarray(o).tobytes())
+    if isinstance(o, Vertex):
+        return ('Vertex', o.id, snapshot(o.pose), repr(o.fixed))
+    if isinstance(o, BaseEdge):
+        return (type(o).__name__, tuple(o.vertex_ids), snapshot(o.information), snapshot(o.estimate), snapshot(getattr(o, 'offset', None)),
+                repr(getattr(o, 'offset_id', None)), tuple(snapshot(v) for v in (o.vertices or [])))
+    if isinstance(o, Graph):
+        return ('Graph', tuple(snapshot(e) for e in o._edges), tuple(snapshot(v) for v in o._vertices))
+    return repr(o)
+
+
+def _equals_code(a, b, tol):
     try:
         r = a.equals(b, float(tol))
     except Exception as ex:  # the exception class is part of the verdict
@@ -313,8 +330,21 @@ def impl_equals(da, db, tol):
     return 99
 
 
+def impl_equals(da, db, tol):
+    """the verdict of a.equals(b) -- which is only a verdict if it is a function of the two values: 98 if the call changed an operand,
+    97 if asking again gives another answer (either makes every later comparison of these objects wrong)"""
+    a, b = to_py(da), to_py(db)
+    s0 = (snapshot(a), snapshot(b))
+    c = _equals_code(a, b, tol)
+    if (snapshot(a), snapshot(b)) != s0:
+        return 98
+    if _equals_code(a, b, tol) != c:
+        return 97
+    return c
+
+
 def code_str(c):
-    return {0: 'False', 1: 'True', 99: 'non-bool'}.get(c, 'raise ' + EXN_INV.get(c - 10, '?'))
+    return {0: 'False', 1: 'True', 99: 'non-bool', 98: 'changed an operand', 97: 'another answer when asked again'}.get(c, 'raise ' + EXN_INV.get(c - 10, '?'))
 
 
 # ---- the declarative specification (direct oracle), independent of the order of tests in the code
@@ -633,7 +663,7 @@ def c17_jobs(tier, rng):
     pert_cases(j, range(len(objs)))
     jobs.append(j)
     # graphs
-    objs = [d_graph(f, v, 1) for f in range(3) for v in range(13)] + [d_graph(f, 0, sc) for f in range(3) for sc in (0, 2)]
+    objs = [d_graph(f, v, 1) for f in range(3) for v in range(15)] + [d_graph(f, 0, sc) for f in range(3) for sc in (0, 2)]
     j = Job('c17_graph', 'graph', objs)
     for tol in (TOLS[:1] if tier == 'quick' else TOLS):
         j.cases += [(a, b, 0, Fr(0), tol) for a in range(len(objs)) for b in range(len(objs))]
@@ -643,6 +673,18 @@ def c17_jobs(tier, rng):
     for k, chunk in enumerate([sel[i::6] for i in range(6)]):
         jj = Job('c17_graphp_%d' % k, 'graph', [objs[i] for i in chunk])
         pert_cases(jj, range(len(jj.objs)), per)
+        jobs.append(jj)
+    # graphs with vertices of very different size: EVERY component of every vertex (the tolerance is relative to that vertex, not to the graph)
+    mix = [d_graph(f, v, 1) for f in range(3) for v in (13, 14)]
+    for k in range(2):
+        jj = Job('c17_graphmix_%d' % k, 'graph', mix[k::2])
+        for i, o in enumerate(jj.objs):
+            n_e = sum(ncomp(e) for e in o['edges'])
+            for c in range(n_e, ncomp(o)):
+                for m in MAGS:
+                    for tol in (TOLS[:1] if tier == 'quick' else TOLS):
+                        if robust(o, c, m * tol, tol):
+                            jj.cases.append((i, i, c, m * tol, tol))
         jobs.append(jj)
     # edges: all ordered pairs of shapes (thorough) / of a seeded subset (quick)
     shapes = edge_shapes()
@@ -698,7 +740,8 @@ def _c17_worker(j):
     codes = []
     if j.sweep:
         tol = j.sweep[2]
-        pyo = [to_py(o) for o in j.objs]       # equals does not mutate its operands
+        pyo = [to_py(o) for o in j.objs]       # equals does not mutate its operands (checked at the end of the sweep)
+        snap0 = [snapshot(o) for o in pyo]
         st = [structure(o) for o in j.objs]
         wfo = [wf(o) for o in j.objs]
     for cs in cases:
@@ -719,7 +762,9 @@ def _c17_worker(j):
         codes.append(c)
         out['hist'][code_str(c)] = out['hist'].get(code_str(c), 0) + 1
         bad = None
-        if c >= 10 and must_not_raise:
+        if c in (97, 98):
+            bad = 'equals %s (the comparison is not a function of the two values: comparing these objects again gives a wrong verdict)' % code_str(c)
+        elif c >= 10 and must_not_raise:
             bad = 'equals raised %s for two well-formed objects' % code_str(c)[6:]
         elif c < 10 and exp is not None and c != (1 if exp else 0):
             bad = 'equals returned %s, the specification requires %s' % (code_str(c), exp)
@@ -731,6 +776,12 @@ def _c17_worker(j):
             out['nontrivial'] += 1
         if dl != 0:
             out['perturbed'] += 1
+    if j.sweep:
+        changed = [i for i, o in enumerate(pyo) if snapshot(o) != snap0[i]]
+        if changed:
+            out['oracle_violations'].append({'what': 'after a sweep of equals() calls over %d objects, object %d is no longer what it was: equals changed an operand' % (len(pyo), changed[0]),
+                                             'a': jsonable(j.objs[changed[0]]), 'b': jsonable(j.objs[changed[0]]), 'tol': str(j.sweep[2]), 'observed': code_str(98),
+                                             'python': 'a = %s  # compared with every other object of the sweep' % py_expr(j.objs[changed[0]])})
     out['structured'] = len(cases) if j.name.startswith('c17_struct_') else 0
     out['codes'] = codes if not j.sweep else None
     out['hashes'] = hashes(codes)
@@ -810,7 +861,9 @@ def c17_eval(p):
     c = impl_equals(da, db, tol)
     must_not_raise, exp = spec_equal(da, db, tol)
     bad = None
-    if c >= 10 and must_not_raise:
+    if c in (97, 98):
+        bad = 'equals %s (the comparison is not a function of the two values: comparing these objects again gives a wrong verdict)' % code_str(c)
+    elif c >= 10 and must_not_raise:
         bad = 'equals raised %s for two well-formed objects' % code_str(c)[6:]
     elif c < 10 and exp is not None and c != (1 if exp else 0):
         bad = 'equals returned %s, the specification requires %s' % (code_str(c), exp)
@@ -1338,6 +1391,43 @@ def c18_g2o_entry():
                 if accepted != (k == n):
                     bad.append({'what': '%s line with the upper triangle of a %dx%d information matrix (the edge admits %dx%d) was %s by Graph.from_g2o'
                                         % (tag, k, k, n, n, 'accepted' if accepted else 'rejected'), 'text': text})
+            finally:
+                if os.path.exists(pth):
+                    os.remove(pth)
+    # binding BY ID through the .g2o entry point, for ids of every size (neighbouring integers beyond 2^53 are distinct ids although they are not
+    # distinct doubles): three vertices listed in reverse order, the edge names two of them -> bound to exactly those; the edge names an id that
+    # is absent while its neighbours are present -> no graph
+    vtx = {'EDGE_SE2': ('VERTEX_SE2 %d %d 0 0', 'VERTEX_SE2 %d %d 0 0'), 'EDGE_SE3:QUAT': ('VERTEX_SE3:QUAT %d %d 0 0 0 0 0 1', 'VERTEX_SE3:QUAT %d %d 0 0 0 0 0 1'),
+           'EDGE_SE2_XY': ('VERTEX_SE2 %d %d 0 0', 'VERTEX_XY %d %d 1'), 'EDGE_SE3_TRACKXYZ': ('VERTEX_SE3:QUAT %d %d 0 0 0 0 0 1', 'VERTEX_TRACKXYZ %d %d 1 1')}
+    B = 2 ** 53
+    for tag, (head, stem, n) in ok_lines.items():
+        tri = ' '.join('1' if i == j else '0' for i in range(n) for j in range(i, n))
+        pre = 'PARAMS_SE3OFFSET 0 0 0 0 0 0 0 1\n' if tag == 'EDGE_SE3_TRACKXYZ' else ''
+        rest = stem.split(' ', 3)[3]
+        for (a, b, extra, present) in [(1, 2, 3, True), (B, B + 1, B + 2, True), (B + 1, B + 2, B, True), (B + 3, B + 1, B + 2, True), (-B - 1, -B, -B - 2, True),
+                                       (2 ** 62 + 1, 2 ** 62 + 3, 2 ** 62 + 2, True), (B + 1, B + 4, B + 2, True),
+                                       (B + 1, B + 2, B, False), (B, B + 3, B + 4, False), (-B - 1, 5, -B, False), (4, 2 ** 62 + 1, 2 ** 62, False)]:
+            # present=False: the vertex `a` the edge names is NOT in the file (its neighbour `extra` is)
+            va, vb = vtx[tag]
+            lines = [vb % (b, 20)] + [(va if present else va) % (extra, 30)] + ([va % (a, 10)] if present else [])
+            text = pre + '\n'.join(lines) + '\n' + '%s %d %d %s %s\n' % (tag, a, b, rest, tri)
+            pth = os.path.join(tempfile.gettempdir(), 'verif_c18_%d.g2o' % os.getpid())
+            try:
+                with open(pth, 'w') as fh:
+                    fh.write(text)
+                n_run += 1
+                try:
+                    g = Graph.from_g2o(pth)
+                    e = g._edges[0]
+                    got = [(int(v.id), float(np.asarray(v.pose)[0])) for v in e.vertices] if len(g._edges) == 1 and e.vertices is not None else None
+                except Exception:  # noqa
+                    got = 'raised'
+                if present and got != [(a, 10.0), (b, 20.0)]:
+                    bad.append({'what': '%s line naming the vertices %d and %d (file lists %d, %d, %d): the edge is bound to %r, expected the vertices at x=10 and x=20'
+                                        % (tag, a, b, b, extra, a, got), 'text': text})
+                elif not present and got != 'raised':
+                    bad.append({'what': '%s line naming the vertex %d that the file does not contain (it contains %d and %d): a graph was built, edge bound to %r'
+                                        % (tag, a, b, extra, got), 'text': text})
             finally:
                 if os.path.exists(pth):
                     os.remove(pth)
